@@ -49,6 +49,7 @@ func c11Alphabet() []ref.Sym {
 	for _, k := range []string{"GET", "CODE", "Body", "Tags", "TYPE"} {
 		out = append(out, ref.Sym{Kind: k, Via: "include"})
 	}
+	out = append(out, ref.Sym{Kind: "GET", HasPath: true, Via: "include"})
 	out = append(out, ref.Sym{Close: true})
 	return out
 }
@@ -71,7 +72,11 @@ func c11Render(seq []ref.Sym) (string, []int) {
 		lines[i] = line
 		switch {
 		case s.Via == "include":
-			wl("INCLUDE inc_" + s.Kind + ".jst")
+			if s.HasPath {
+				wl("INCLUDE inc_" + s.Kind + "p.jst") // the included method carries a path of its own
+			} else {
+				wl("INCLUDE inc_" + s.Kind + ".jst")
+			}
 		case s.Close:
 			wl(")")
 		case s.Kind == "Description":
@@ -109,6 +114,8 @@ func c11WriteIncludes(dir string) {
 		txt, _ := c11Render([]ref.Sym{{Kind: k}})
 		os.WriteFile(filepath.Join(dir, "inc_"+k+".jst"), []byte(txt), 0o644)
 	}
+	txt, _ := c11Render([]ref.Sym{{Kind: "GET", HasPath: true}})
+	os.WriteFile(filepath.Join(dir, "inc_GETp.jst"), []byte(txt), 0o644)
 }
 
 type c11Obs struct {
@@ -346,7 +353,7 @@ func c11ReducedAlphabet() []ref.Sym {
 		out = append(out, ref.Sym{Kind: k}, ref.Sym{Kind: k, Explicit: true})
 	}
 	out = append(out, ref.Sym{Kind: "GET", HasPath: true}, ref.Sym{Kind: "GET", HasPath: true, Explicit: true}, ref.Sym{Kind: "GET"}, ref.Sym{Kind: "GET", Explicit: true})
-	out = append(out, ref.Sym{Kind: "GET", Via: "include"}, ref.Sym{Kind: "CODE", Via: "include"})
+	out = append(out, ref.Sym{Kind: "GET", Via: "include"}, ref.Sym{Kind: "CODE", Via: "include"}, ref.Sym{Kind: "GET", HasPath: true, Via: "include"})
 	return append(out, ref.Sym{Close: true})
 }
 
@@ -477,7 +484,7 @@ func runC11(c *chk.Ctx) {
 		json.Unmarshal(b[0], &m)
 		c.Cov["bfs"] = m
 	}
-	c.Cov["rule"] = "states = reachable open-context chains of the reference automaton (all of them); from every state every symbol of the alphabet (kind x explicit/implicit x path/no-path, and ')') is executed on the real scanner+context resolution (VerifScanOnly) over text rendered from shortest witness + symbol; verdict, error class, error line, open-context chain and directive tree are compared. Adequacy: all sequences up to length 3 over the full alphabet, and all sequences up to length 5 (thorough 6) over a reduced 21-symbol alphabet (which includes directives written in an INCLUDEd file of their own), are also run without deduplication (this also exposes state that only the PASTE-expansion pass keeps: for MACRO/PASTE-free sequences the tree rebuilt by that pass must equal the reference tree)."
+	c.Cov["rule"] = "states = reachable open-context chains of the reference automaton (all of them); from every state every symbol of the alphabet (kind x explicit/implicit x path/no-path, and ')') is executed on the real scanner+context resolution (VerifScanOnly) over text rendered from shortest witness + symbol; verdict, error class, error line, open-context chain and directive tree are compared. Adequacy: all sequences up to length 3 over the full alphabet, and all sequences up to length 5 (thorough 6) over a reduced 22-symbol alphabet (which includes directives written in an INCLUDEd file of their own), are also run without deduplication (this also exposes state that only the PASTE-expansion pass keeps: for MACRO/PASTE-free sequences the tree rebuilt by that pass must equal the reference tree)."
 	c.Cov["exhaustive"] = true
 	c.Assumptions = append(c.Assumptions,
 		"reference automaton (internal/ref/context.go) holds a frozen copy of the JSight API 0.3 allowed-context table",
